@@ -132,7 +132,14 @@ EXTRA = {
     'sumifs2': '=SUMIFS(B1:B3,A1:A3,">1",D1:D3,"<7")', 'countifs2': '=COUNTIFS(A1:A3,">1",D1:D3,"<7")', 'averageifs2': '=AVERAGEIFS(B1:B3,A1:A3,">1",D1:D3,"<7")',
     'sumifs_misaligned': '=SUMIFS(B1:B3,A1:A2,">1")', 'countifs_misaligned': '=COUNTIFS(A1:A3,">1",D1:D4,"<7")', 'averageifs_misaligned': '=AVERAGEIFS(B1:B3,A1:A2,">1")',
     'sumifs_wide_vs_tall': '=SUMIFS(B1:C3,A1:A3,">1")',
+    'sumifs_row_misaligned': '=SUMIFS(A2:D2,A1:C1,">1")', 'countifs_row_misaligned': '=COUNTIFS(A1:C1,">1",A2:D2,"<7")', 'sumifs_rect_misaligned': '=SUMIFS(A1:B3,C1:D3,">1",A1:A3,">0")',
+    'col_sumifs': '=SUMIFS(D:D,A:A,">1")', 'col_countifs': '=COUNTIFS(A:A,">1",D:D,"<8")', 'col_averageifs': '=AVERAGEIFS(D:D,A:A,">1")', 'col_sumif': '=SUMIF(A:A,">1",C:C)',
+    'dec_ge': '=COUNTIFS(A1:A3,">=4.56")', 'dec_le': '=SUMIFS(B1:B3,A1:A3,"<=4.69")', 'dec_eq': '=COUNTIFS(A1:A3,"=1.14")', 'dec_ne': '=SUMIF(A1:A3,"<>0.3",B1:B3)',
+    'dec_gt': '=COUNTIFS(A1:A3,">1.05")', 'dec_lt_neg': '=COUNTIFS(A1:A3,"<-2.5")', 'dec_bare': '=COUNTIFS(A1:A3,4.56)',
+    'neg_lt': '=COUNTIFS(A1:A3,"<-2")', 'neg_ge': '=SUMIFS(B1:B3,A1:A3,">=-2")', 'neg_eq': '=COUNTIFS(A1:A3,"=-2")', 'neg_ne': '=SUMIF(A1:A3,"<>-2",B1:B3)', 'neg_bare': '=COUNTIFS(A1:A3,-2)',
+    'zero_lead_gt': '=COUNTIFS(A1:A3,">02")', 'zero_lead_eq': '=SUMIFS(B1:B3,A1:A3,"=02")', 'exp_gt': '=COUNTIFS(A1:A3,">1e1")',
 }
+DEC_MENU = [4.56, 4.55, 4.57, 1.14, 1.13, 4.69, 4.7, 0.3, 0.29, 1.05, 1.5, -2.5, -2.51, 0]
 for _n, _f in EXTRA.items():
     try:
         K[(_n, '')] = build.load_class(build.translate_formulas({'E1': _f}, dict(CONSTS, B4=40)), f'_k_{_n}')
@@ -209,13 +216,51 @@ def run(report, tier, seed):
         s.add(nm, 'a1: int, a2: int, a3: int', 'True', f'''
             return is_err(outcome(lambda: ev(('{nm}', ''), A1=a1, A2=a2, A3=a3)))
         ''', encodes=enc, requires=f"('{nm}', '') in K")
+    for nm in ('sumifs_row_misaligned', 'countifs_row_misaligned', 'sumifs_rect_misaligned'):
+        s.add(nm, 'a1: int, a2: int, a3: int', 'True', f'''
+            return is_err(outcome(lambda: ev(('{nm}', ''), A1=a1, A2=a2, A3=a3)))
+        ''', encodes=enc, requires=f"('{nm}', '') in K")
+    # whole-column ranges over columns filled to different rows (A: 3 rows, D: 4, B: 4, C: 1); rows below the data are blank and never selected
+    col = 'a1: int, a2: int, a3: int, d1: int, d2: int, d3: int, d4: int'
+    s.add('whole_columns_sumifs', col, 'True', '''
+        return outcome(lambda: ev(('col_sumifs', ''), A1=a1, A2=a2, A3=a3, D1=d1, D2=d2, D3=d3, D4=d4)) == ('val', sum(d for a, d in zip([a1, a2, a3], [d1, d2, d3]) if a > 1))
+    ''', encodes=enc, requires="('col_sumifs', '') in K")
+    s.add('whole_columns_countifs', col, 'True', '''
+        return outcome(lambda: ev(('col_countifs', ''), A1=a1, A2=a2, A3=a3, D1=d1, D2=d2, D3=d3, D4=d4)) == ('val', len([1 for a, d in zip([a1, a2, a3], [d1, d2, d3]) if a > 1 and d < 8]))
+    ''', encodes=enc, requires="('col_countifs', '') in K")
+    s.add('whole_columns_averageifs', col, 'True', '''
+        sel = [d for a, d in zip([a1, a2, a3], [d1, d2, d3]) if a > 1]
+        o = outcome(lambda: ev(('col_averageifs', ''), A1=a1, A2=a2, A3=a3, D1=d1, D2=d2, D3=d3, D4=d4))
+        return is_err(o) if not sel else o == ('val', ('AVG', sorted(sel)))
+    ''', encodes=enc, requires="('col_averageifs', '') in K")
+    s.add('whole_columns_sumif_short_target', 'a1: int, a2: int, a3: int, c1: int, c3: int', 'True', '''
+        return outcome(lambda: ev(('col_sumif', ''), A1=a1, A2=a2, A3=a3, C1=c1, C3=c3)) == ('val', (c1 if a1 > 1 else 0) + (c3 if a3 > 1 else 0))
+    ''', encodes=enc, requires="('col_sumif', '') in K")
+    # decimal thresholds: the number in the criterion text must be the double the same decimal denotes in a cell (cells drawn from a menu by symbolic index)
+    dec = f'i: int, j: int, k: int, b1: int, b2: int, b3: int', f'0 <= i < {14} and 0 <= j < {14} and 0 <= k < {14}'
+    for nm, op, thr, fold in (('dec_ge', '>=', 4.56, 'count'), ('dec_le', '<=', 4.69, 'sum'), ('dec_eq', '==', 1.14, 'count'), ('dec_ne', '!=', 0.3, 'sum'), ('dec_gt', '>', 1.05, 'count'),
+                              ('dec_lt_neg', '<', -2.5, 'count'), ('dec_bare', '==', 4.56, 'count')):
+        exp = f'len([1 for v in vs if v {op} {thr!r}])' if fold == 'count' else f'sum(b for v, b in zip(vs, [b1, b2, b3]) if v {op} {thr!r})'
+        s.add('decimal_threshold_' + nm, dec[0], dec[1], f'''
+            vs = [DEC_MENU[realize(i)], DEC_MENU[(realize(i) + 5) % 14], DEC_MENU[(realize(i) + 9) % 14]]
+            return outcome(lambda: ev(('{nm}', ''), A1=vs[0], A2=vs[1], A3=vs[2], B1=b1, B2=b2, B3=b3)) == ('val', {exp})
+        ''', encodes=enc, requires=f"('{nm}', '') in K")
+    three = 'a1: int, a2: int, a3: int, b1: int, b2: int, b3: int'
+    for nm, op, thr, fold in (('neg_lt', '<', -2, 'count'), ('neg_ge', '>=', -2, 'sum'), ('neg_eq', '==', -2, 'count'), ('neg_ne', '!=', -2, 'sum'), ('neg_bare', '==', -2, 'count'),
+                              ('zero_lead_gt', '>', 2, 'count'), ('zero_lead_eq', '==', 2, 'sum'), ('exp_gt', '>', 10, 'count')):
+        exp = f'len([1 for v in vs if v {op} {thr!r}])' if fold == 'count' else f'sum(b for v, b in zip(vs, [b1, b2, b3]) if v {op} {thr!r})'
+        s.add('signed_threshold_' + nm, three, 'True' if nm != 'exp_gt' else '-20 <= a1 <= 20', f'''
+            {"a1 = realize(a1); a2 = 11; a3 = 10" if nm == 'exp_gt' else ""}
+            vs = [a1, a2, a3]
+            return outcome(lambda: ev(('{nm}', ''), A1=a1, A2=a2, A3=a3, B1=b1, B2=b2, B3=b3)) == ('val', {exp})
+        ''', encodes=enc, requires=f"('{nm}', '') in K")
     report.bound('3-row criteria column (cells Union[int, str]: len<=1 for numeric criterion forms, one symbolic cell with str len<=3 over abA for text/wildcard forms, realised early (the solver enumerates the 40 texts)), 3-row int target column, criterion cell int; criterion forms: '
-                 f'{len(forms)} (x 4 functions) + 10 structural shapes (2 pairs, target derivation, misaligned ranges)')
+                 f'{len(forms)} (x 4 functions) + 24 structural shapes (2 pairs, target derivation, misaligned ranges incl. row/rectangle layouts, whole-column ranges over columns of different fill, decimal thresholds on a 14-value menu)')
     report.assume('three-valued accept predicate: blank/boolean cells and wildcard matches that differ between the case-sensitive and case-insensitive '
                   'reading are unconstrained (the statement demands case-insensitivity for plain text only); a text cell under a numeric comparison '
                   'must not match except for <> (Excel)',
                   'AVERAGEIFS: the cells handed to _average are compared (the division itself is covered by C11 average_helper_small_ints)',
-                  'outside the claim: date criteria, ranges longer than 3, more than 2 pairs, float cells',
+                  'outside the claim: date criteria, ranges longer than 4, more than 2 pairs, float cells other than the decimal-threshold menu',
                   'CrossHair patches: re.findall via finditer, ASCII str.lower/upper (texts are ASCII by precondition)')
     s.run(report)
     s.report_translate_errors(report)
